@@ -254,10 +254,11 @@ Gc(s, used, foreign, ord, shallow, dry, ro, cs, cro) ==
 \* compare_status(check_deleted=False); F = uploads that will fail
 XStatus(S, R, src, dst, req, shallow, useIdx) ==
     LET qd == StatusOf(S, R, dst, req, shallow, useIdx, src)
-        qs == IF qd.missing # {} THEN StatusPlain(qd.S, qd.R, src, req, shallow)
+        \* (the source is asked through the same index when it is the indexed store - transfer(src_index=...), a fetch)
+        qs == IF qd.missing # {} THEN StatusOf(qd.S, qd.R, src, req, shallow, useIdx, src)
               ELSE [exists |-> qd.exists, missing |-> {}, S |-> qd.S, R |-> qd.R]
     IN [new |-> qs.exists \ qd.exists, missing |-> qs.missing \cap qd.missing,
-        ok |-> qs.exists \cap qd.exists, S |-> qs.S, R |-> qd.R]
+        ok |-> qs.exists \cap qd.exists, S |-> qs.S, R |-> qs.R]
 ResetXfer == /\ cur' = None /\ bound' = {} /\ curFails' = {} /\ pend' = None /\ failed' = {}
              /\ okDirs' = {} /\ batch' = {} /\ lost' = {} /\ bk' = "none"
 TransferBegin(src, dst, req, shallow, F, verify, useIdx) ==
@@ -268,7 +269,7 @@ TransferBegin(src, dst, req, shallow, F, verify, useIdx) ==
        ELSE LET q == XStatus(store, ridx, src, dst, req, shallow, useIdx)
             IN /\ store' = q.S /\ ridx' = q.R
                /\ xs' = [src |-> src, dst |-> dst, req |-> req, shallow |-> shallow, F |-> F, verify |-> verify,
-                         idx |-> useIdx /\ dst = IdxStore, new |-> q.new, missing |-> q.missing,
+                         idx |-> useIdx /\ dst = IdxStore, sidx |-> useIdx /\ src = IdxStore, new |-> q.new, missing |-> q.missing,
                          ok |-> q.ok, pre |-> PresentSet(q.S, dst)]
                /\ last' = [op |-> "xstatus", new |-> q.new, missing |-> q.missing]
                /\ opened' = IF src \in opened THEN opened \cup {dst} ELSE opened
@@ -327,7 +328,9 @@ Pick(d) ==
     /\ UNCHANGED <<ridx, delivered, opened, gced, unfin, nx, xs, okDirs, ph>>
 
 \* one upload (fs.put_file of one object); fails iff the object is in F
-PutRes(x) == IF x \in xs.F THEN "fail" ELSE "ok"
+\* an upload fails when a fault is injected for it - or when the source does not hold the object after all (a stale
+\* source index had promised it)
+PutRes(x) == IF x \in xs.F \/ ~Present(store, xs.src, x) THEN "fail" ELSE "ok"
 WriteObj(S, x) == [S EXCEPT ![xs.dst][x] = Written(S[xs.src][x])]
 
 PutBound(x) ==
@@ -394,7 +397,9 @@ TransferEnd ==
           /\ delivered' = NoteDelivered(S1)
           /\ lost' = lost \cup LostNow
           /\ dev' = dev \cup DevAfterSeal
-    /\ ridx' = IF failed = {} /\ xs.idx THEN ridx \cup okDirs \cup ListsOf(okDirs) ELSE ridx
+    \* a transfer with failures clears the SOURCE's index (it promised something that could not be read)
+    /\ ridx' = IF failed = {} /\ xs.idx THEN ridx \cup okDirs \cup ListsOf(okDirs)
+               ELSE IF failed # {} /\ xs.sidx THEN {} ELSE ridx
     /\ last' = [op |-> "transfer", transferred |-> xs.new \ failed, failed |-> failed]
     /\ ph' = "idle" /\ batch' = {} /\ bk' = "none"
     /\ act' = [op |-> "TransferEnd"]
@@ -524,6 +529,8 @@ C12_StaleCleared(S, s, ids, useIdx, R2) ==
 C12_XferNoStaleDir(S, a, L) ==
     (~Refusal(L) /\ a.idx /\ a.dst = IdxStore) =>
         \A d \in (a.req \cap Dirs) \ (L.new \cup L.missing) : Present(S, a.dst, d)
+\* a transfer that could not read everything its source index promised leaves that index empty
+C12_SrcIndexCleared(L, R2) == (xs.sidx /\ L.failed # {}) => R2 = {}
 C12_Compare(S, a, L) ==
     ~Refusal(L) =>
         LET ids == Expand(a.ids, a.shallow)
